@@ -11,6 +11,12 @@ def sh(cmd, cwd="/", env=None, timeout=3000):
     p = subprocess.run(cmd, shell=True, cwd=cwd, env=env, stdout=subprocess.PIPE, stderr=subprocess.STDOUT, text=True, timeout=timeout)
     return p.returncode, p.stdout
 
+DETECT_ONLY = "--detect-only" in sys.argv
+if DETECT_ONLY:
+    sys.argv.remove("--detect-only")
+    WT, EV = "/tmp/mutdetect_wt", "/tmp/mutdetect_ev"
+
+
 def main():
     sh("git -C /repo worktree remove --force " + WT)
     rc, o = sh("git -C /repo worktree add -q --detach %s HEAD" % WT)
@@ -22,7 +28,7 @@ def main():
             meta = json.load(open(os.path.join(d, "meta.json")))
             conf = json.load(open(os.path.join(d, "confirm.json"))) if os.path.exists(os.path.join(d, "confirm.json")) else {}
             pid = meta["property"]
-            name = "%s-%s" % (pid, os.path.basename(d))
+            name = "%s-%s" % (pid, os.path.basename(d)) + ("2" if "mutout2" in d else "")
             pf = os.path.join(d, "patch_ported.diff") if os.path.exists(os.path.join(d, "patch_ported.diff")) else os.path.join(d, "patch.diff")
             sh("git checkout -q -- . && git clean -fdq", WT)
             rc, o = sh("git apply " + pf, WT)
@@ -33,6 +39,9 @@ def main():
             rc, out = sh("bin/check %s quick" % pid, V, env)
             sh("git checkout -q -- . && git clean -fdq", WT)
             viol = [l for l in out.splitlines() if l.startswith("VIOLATION")]
+            if DETECT_ONLY:
+                print(name, "exit=%d" % rc, (viol[0][:200] if viol else out.strip().splitlines()[-1][:200] if out.strip() else ""), flush=True)
+                continue
             dst = os.path.join(V, "seeded", name)
             os.makedirs(dst, exist_ok=True)
             shutil.copy(os.path.join(d, "patch.diff"), os.path.join(dst, "patch_original.diff" if pf.endswith("ported.diff") else "patch.diff"))
